@@ -22,6 +22,7 @@ BOUNDS = {
     "quick": "n<=4 all compositions x all injective value assignments (capped 24 per composition) x {id, monomial, Householder}; n=2 all 144 integer matrices; n=3 8 masks x 5 letters x 3 diagonals; n=4 64 masks",
     "thorough": "n<=6, up to 60 value assignments per composition",
 }
+THOROUGH_STREAMS = 8
 WALL_BUDGET = {"quick": 300, "thorough": 2400}
 ASSUMPTIONS = ["spectrum oracle: eigvalsh of the complex adjoint (each eigenvalue twice, pairing by reshape)"]
 VALUES = [2.0, 1.0, 0.0, -1.0, -2.0]
